@@ -95,6 +95,56 @@ def inline_into(caller_raw, callee_raw, bi):
         elif t['k'] in ('call', 'drop', 'assert') and not isinstance(t.get('u'), int) and t.get('u') == 'continue' and isinstance(call.get('u'), int):
             # a panic inside the callee unwinds into the caller's cleanup
             t['u'] = call['u']
+    # partial evaluation: a parameter that receives a literal Option / Result variant at THIS call site (`helper(name, None, v)`) decides the
+    # `match param` inside the copy - the other arms are not part of this call
+    VIDX = {'None': 0, 'Some': 1, 'Ok': 0, 'Err': 1}
+    known = {}
+    for i, a in enumerate(call['args']):
+        if isinstance(a, dict) and 'l' in a and not a['p']:
+            defs = [st for st in blk['stmts'] if st.get('k') == 'assign' and st['dst']['l'] == a['l'] and not st['dst']['p'] and st.get('inl') is None]
+            if len(defs) == 1 and defs[0]['rv']['k'] == 'agg' and defs[0]['rv'].get('adt') in ('Option', 'Result') and defs[0]['rv'].get('var') in VIDX:
+                # the local must not be assigned anywhere else in the caller
+                others = [1 for b2 in new['blocks'] for st in b2['stmts'] if st.get('k') == 'assign' and st['dst']['l'] == a['l'] and st is not defs[0]]
+                if not others:
+                    known[L + 1 + i] = VIDX[defs[0]['rv']['var']]
+    if known:
+        pruned = False
+        for cb in cal['blocks']:
+            t = cb['term']
+            if t['k'] == 'switch' and isinstance(t['d'], dict) and 'l' in t['d'] and not t['d']['p']:
+                dl = t['d']['l']
+                src = [st for st in cb['stmts'] if st.get('k') == 'assign' and st['dst']['l'] == dl and not st['dst']['p']]
+                if len(src) == 1 and src[0]['rv']['k'] == 'discr' and not src[0]['rv']['pl']['p'] and src[0]['rv']['pl']['l'] in known:
+                    # the parameter itself must not be reassigned inside the callee
+                    pl_ = src[0]['rv']['pl']['l']
+                    reassigned = [1 for b2 in cal['blocks'] for st in b2['stmts'] if st.get('k') == 'assign' and st['dst']['l'] == pl_ and not st['dst']['p']]
+                    if not reassigned:
+                        v = str(known[pl_])
+                        tgt = dict(t['ts']).get(v, t['else'])
+                        cb['term'] = {'k': 'goto', 't': tgt}
+                        pruned = True
+        if pruned:
+            # blank the blocks of the copy that are no longer reachable from its entry
+            idx = {cb['i']: cb for cb in cal['blocks']}
+            seen_, st_ = set(), [B]
+            while st_:
+                x = st_.pop()
+                if x in seen_ or x not in idx:
+                    continue
+                seen_.add(x)
+                t = idx[x]['term']
+                nxt = []
+                if t['k'] == 'goto':
+                    nxt = [t['t']]
+                elif t['k'] == 'switch':
+                    nxt = [y for _, y in t['ts']] + [t['else']]
+                elif t['k'] in ('call', 'drop', 'assert'):
+                    nxt = [y for y in (t.get('t'), t.get('u')) if isinstance(y, int)]
+                st_.extend(nxt)
+            for cb in cal['blocks']:
+                if cb['i'] not in seen_:
+                    cb['stmts'] = []
+                    cb['term'] = {'k': 'unreachable'}
     new['locals'] = new['locals'] + cal['locals']
     new['blocks'] = new['blocks'] + cal['blocks']
     new['debug'] = list(new.get('debug', [])) + cal['debug']
